@@ -553,8 +553,13 @@ class RdmsOps:
         r.shuffle(p)
         parg = None if o['flag'] else np.array(p)      # (documented as numpy.ndarray)
         guard = self._plain_guard('permute_rdms', p=parg)
+        had_pinv = 'p_inv' in src.obj.descriptors
         try:
             res = permute_rdms(src.obj, p=parg)
+            if not had_pinv and 'p_inv' in src.obj.descriptors:
+                self.pool.report('C10', 'rdms_twin.descriptors', 'permute_rdms:source-gains-p_inv',
+                                 'permute_rdms wrote the inverse permutation into the descriptors of the object it was given (a later '
+                                 'permutation of that object overwrites it, and the inverse of the first result is then wrong)')
             if o['flag']:
                 p = [int(x) for x in np.argsort(res.descriptors['p_inv'])]     # the permutation the RNG seam served
         except Exception as e:
